@@ -270,7 +270,7 @@ Section Refine.
       | _ => smerge (map part_rows pc)
       end.
 
-    Definition plan_rows (plan : list piece) : list row := flat_map piece_rows plan.
+    Definition refined_rows (plan : list piece) : list row := flat_map piece_rows plan.
   End Sweep.
 
   (* the unrefined merge of the segment *)
